@@ -499,6 +499,10 @@ func repoWalks(g *graph.Graph, rng *rand.Rand, n, length int) [][]*graph.Edge {
 
 // C08 — refresh is all-or-nothing; a failed refresh keeps the previous list.
 func C08(c *vk.Ctx) {
+	if os.Getenv("VERIF_ONLY") == "c08inside" { // debugging aid: only the readers-inside scenario
+		c08ReadersInside(c)
+		return
+	}
 	rng := rand.New(rand.NewSource(c.Seed))
 	var states, trans int64
 	walks := 0
@@ -521,11 +525,12 @@ func C08(c *vk.Ctx) {
 			}
 		}
 	}
+	walks += c08ReadersInside(c)
 	c.Set("states", states)
 	c.Set("transitions", trans)
 	c.Set("traces_validated_against_impl", int64(walks))
 	c.Set("spec", "CrlRepo.tla: 2 readers, 2 keys, 2 runs, crash enabled on disk: Atomic (a reader inside its critical section sees one complete accepted list), Monotone (per reader and real-time order), FailKeeps (every failure branch: unreachable, garbage, truncated, bad signature, staging-store create error, insert error at step k), SwapLocked, LockOK")
-	c.Set("rule", "a case is one edge of the loader/refresher graph (3 keys: old-only, new-only, common; origins good/badsig/trunc x 8 key sets, garbage, down) executed on a real repository with the loader parked at the corresponding verif hook; at every stop three lookups run concurrently: if they return they must equal the complete previous or the complete new accepted list (never empty, partial, mixed or an error), and the previous list is never observed after the new one")
+	c.Set("rule", "a case is one edge of the loader/refresher graph (3 keys: old-only, new-only, common; origins good/badsig/trunc x 8 key sets, garbage, down) executed on a real repository with the loader parked at the corresponding verif hook; at every stop three lookups run concurrently: if they return they must equal the complete previous or the complete new accepted list (never empty, partial, mixed or an error), and the previous list is never observed after the new one; plus, per backend and signature mode, three lookups parked inside the live store while the refresher is stepped to the swap: it must wait for them (SwapLocked from the reader's side)")
 	c.Assume("interleavings are exhaustive at hook granularity for one loader and a lookup placed at every loader step; finer interleavings of the readers are covered by the TLC proof on the model and by the free-running stress in C13")
 }
 
